@@ -463,6 +463,43 @@ pub extern "C" fn getppid() -> c_int {
     }
 }
 
+const SYS_SCHED_GETAFFINITY: std::ffi::c_long = 204;
+
+/// Processor-count seam, in-process side: a launch thread sees only the first 1 + key[4] % 8 of
+/// the processors it really may run on (as in the exec tier's shim).
+#[cfg(all(target_os = "linux", target_arch = "x86_64"))]
+#[unsafe(no_mangle)]
+pub unsafe extern "C" fn sched_getaffinity(pid: c_int, size: usize, mask: *mut u8) -> c_int {
+    // SAFETY: the caller's buffer is `size` bytes, as the system call requires.
+    let written = unsafe { syscall(SYS_SCHED_GETAFFINITY, pid as std::ffi::c_long, size, mask) };
+    if written < 0 {
+        return -1;
+    }
+    let written = written as usize;
+    // SAFETY: `mask` points to `size` writable bytes (contract of sched_getaffinity).
+    let bytes = unsafe { std::slice::from_raw_parts_mut(mask, size) };
+    for b in bytes.iter_mut().skip(written) {
+        *b = 0;
+    }
+    let want = STATE
+        .try_with(|s| s.try_borrow().ok().filter(|s| s.installed).map(|s| 1 + usize::from(s.key[4]) % 8))
+        .unwrap_or(None);
+    if let Some(want) = want {
+        let mut seen = 0usize;
+        for i in 0..size * 8 {
+            let bit = 1u8 << (i % 8);
+            if bytes[i / 8] & bit != 0 {
+                if seen >= want {
+                    bytes[i / 8] &= !bit;
+                } else {
+                    seen += 1;
+                }
+            }
+        }
+    }
+    0
+}
+
 const SYS_OPENAT: std::ffi::c_long = 257;
 const SYS_MEMFD_CREATE: std::ffi::c_long = 319;
 const AT_FDCWD: std::ffi::c_long = -100;
@@ -511,6 +548,56 @@ pub unsafe extern "C" fn open64(path: *const std::ffi::c_char, flags: c_int, mod
                             s.pid_reads += 1;
                         }
                     });
+                    return fd;
+                }
+            }
+        }
+    }
+    // CPU time accounted to the process / thread: follows the clock plan (ticks = step in ms)
+    if name == b"/proc/self/stat" || name == b"/proc/thread-self/stat" {
+        // CPU time follows the clock plan and advances with every reading (so that a budget
+        // measured from a first reading is crossed, or not, as the plan says)
+        let plan = STATE
+            .try_with(|s| {
+                s.try_borrow_mut().ok().filter(|s| s.installed).map(|mut s| {
+                    s.clock_reads += 1;
+                    (s.clock_step_ns.saturating_mul(s.clock_reads), s.pid)
+                })
+            })
+            .unwrap_or(None);
+        if let Some((elapsed, pid)) = plan {
+            let ticks = elapsed / 1_000_000;
+            let content = format!(
+                "{pid} (gram) R {} {pid} {pid} 0 -1 4194304 100 0 0 0 {ticks} {ticks} 0 0 20 0 2 0 100 100000000 2000 18446744073709551615 1 1 0 0 0 0 0 0 0 0 0 0 17 0 0 0 0 0 0 0 0 0 0 0 0 0 0\n",
+                pid.wrapping_sub(1)
+            );
+            // SAFETY: raw system calls on descriptors owned by this function.
+            unsafe {
+                let fd = syscall(SYS_MEMFD_CREATE, c"gramsim-stat".as_ptr(), 0) as c_int;
+                if fd >= 0 {
+                    write(fd, content.as_ptr().cast(), content.len());
+                    lseek(fd, 0, 0);
+                    return fd;
+                }
+            }
+        }
+    }
+    if name == b"/proc/meminfo" {
+        let rss = STATE
+            .try_with(|s| s.try_borrow().ok().filter(|s| s.installed).map(|s| s.rss_kib))
+            .unwrap_or(None);
+        if let Some(rss) = rss {
+            let total: u64 = 64 << 20;
+            let avail = if rss >= 2_000_000 { 2048 } else { total - (rss * 16) % total };
+            let content = format!(
+                "MemTotal:       {total} kB\nMemFree:        {avail} kB\nMemAvailable:   {avail} kB\nBuffers:               0 kB\nCached:                0 kB\nSwapTotal:             0 kB\nSwapFree:              0 kB\n"
+            );
+            // SAFETY: as above.
+            unsafe {
+                let fd = syscall(SYS_MEMFD_CREATE, c"gramsim-meminfo".as_ptr(), 0) as c_int;
+                if fd >= 0 {
+                    write(fd, content.as_ptr().cast(), content.len());
+                    lseek(fd, 0, 0);
                     return fd;
                 }
             }
